@@ -175,7 +175,7 @@ FIXED = [
 ]
 
 
-# deterministic scenarios on which the unchanged tree fails (listed in known_findings.d/C39.txt); one schedule each.
+# deterministic scenarios on which the unchanged tree fails (listed in known_findings.txt); one schedule each.
 # Mp = the two Connections talk over net.Pipe (synchronous, the transport of jsonrpc2test); ND = the harness never
 # disconnects the peer to help Close; T400 = 400 ms instead of 6 s before "never".
 FINDINGS = [
